@@ -11,6 +11,9 @@ Decided:
  G3 multi-field values are wrapped: block capacity, socket CID, console size, MAC address and the 9P mount tag are
     computed inside closures passed to read_consistent, and a function that uses read_consistent performs no
     configuration read of that transport outside the closure (no partially wrapped value).
+ G5 window extent: wherever a typed slice window is built from a capability's byte length
+    (slice_from_raw_parts(ptr, f(length, size_of T))), the element count is folded over (length, size_of T):
+    count * size_of T <= length, so the length the accessors bounds-check against never exceeds the device's region.
  G4 direction typing (thorough tier, compile-fail witnesses): read_config! on a WriteOnly field and write_config! on a
     ReadOnly field do not type-check.
 """
@@ -20,7 +23,7 @@ from ..paths import *
 EXPLANATION = ("The four window accessors are generic straight-line functions: their guarded expressions are folded over a table of "
                "window lengths, offsets (including 2^64-boundary values) and value sizes; the retry loop and the closure wrapping "
                "are decided by path enumeration of read_consistent and by closure-creation links in the drivers' MIR.")
-FLOORS = {'accessors': 4, 'guard_rows': 800, 'wrapped_values': 5}
+FLOORS = {'window_builders': 1, 'accessors': 4, 'guard_rows': 800, 'wrapped_values': 5}
 
 WRAPPED = {  # driver ADT -> what is read consistently
     'device::blk::VirtIOBlk': 'capacity', 'device::socket::vsock::VirtIOSocket': 'guest CID', 'device::console::VirtIOConsole': 'size',
@@ -30,6 +33,7 @@ WRAPPED = {  # driver ADT -> what is read consistently
 
 def run(F, R):
     g1_bounds(F, R)
+    g5_window_extent(F, R)
     g2_retry(F, R)
     g3_wrapped(F, R)
 
@@ -110,6 +114,51 @@ def g1_bounds(F, R):
         R.check(bad is None, 'G1', '%s:%s:guard' % (adt, meth), where,
                 'access iff offset+size <= window length, otherwise TooSmall/Missing and no access (%d rows incl. offsets near 2^64)' % rows,
                 'config-space bounds guard: %s' % bad)
+
+
+def g5_window_extent(F, R):
+    n = 0
+    for b in F.bodies.values():
+        if not F.handwritten(b) or 'transport' not in b['id']:
+            continue
+        if not any(bl['term']['k'] == 'call' and 'slice_from_raw_parts' in bl['term'].get('fn', '') for bl in b['blocks']):
+            continue
+        sg = supergraph(F, b['id'], tag='flat', max_depth=0)
+        S = sg.sym
+        for nd in sg.calls(lambda d: 'slice_from_raw_parts' in d.get('fn', '')):
+            cnt = S.operand(nd.id, nd.d['args'][1])
+            is_len = lambda x: x[0] in ('load', 'load0') and x[1][2] and x[1][2][-1][0] == 'f' and x[1][2][-1][1] == 'length'
+            if not derives_from(cnt, is_len):
+                continue
+            n += 1
+            where = site(sg, nd)
+            inst = '%s:slice-count' % b['id']
+            bad = None
+            rows = 0
+            for ln in list(range(0, 20)) + [0x38, 0x3f, 0x40, 0x41, 0xffff, 0x10000, 0xffffffff]:
+                for sz in (1, 2, 4, 8, 6):
+                    def leaf(t, ln=ln):
+                        if is_len(t):
+                            return ln
+                        raise Unfoldable(fmt(t)[:80])
+                    try:
+                        got = Folder(leaf, generic={'T': sz}).ev(cnt)
+                    except Unfoldable as e:
+                        bad = 'unfoldable: %s' % e
+                        break
+                    rows += 1
+                    if got * sz > ln:
+                        bad = 'capability length %d bytes, size_of<T>=%d: window of %d elements = %d bytes extends past the region' % (ln, sz, got, got * sz)
+                        break
+                if bad:
+                    break
+            R.tables += rows
+            if bad and bad.startswith('unfoldable'):
+                R.abstain('G5', inst, bad, where)
+                continue
+            R.check(bad is None, 'G5', inst, where, 'count*size_of<T> <= capability length for %d (length,size) rows: %s' % (rows, fmt(cnt)[:80]),
+                    'configuration window extent: %s' % bad)
+    R.count('window_builders', n)
 
 
 def eval_access(paths, present, ln, off, szt, alt):
